@@ -167,6 +167,16 @@ def rule_hooks(ctx):
     ctx.ob('C15.hooks', f'{ln.fq}:zips-arguments', okn,
            'n-ary list algebra zips sequence arguments with the sequence it maps over (wrap-around), it does not hand whole lists to the kernel',
            ln.node, ln.module)
+    lu = repo.func('sc3.base.utils:list_unop')
+    usrc = full(lu.node)
+    oku = U.before(usrc, 'if isinstance(a, t_seq):', 'if any((isinstance(i, t_seq) for i in a)):', 'return t((list_unop(op, i, type(i)) for i in a))',
+                   'return t((op(i) for i in a))') and usrc.rstrip().endswith('return op(a)')
+    ctx.ob('C15.hooks', f'{lu.fq}:maps-elements', oku,
+           'unary list algebra applies the kernel to every element (recursing into nested rows with the row\'s type) and to a scalar directly', lu.node, lu.module)
+    ls = repo.func('sc3.base.utils:list_sum')
+    ssrc = full(ls.node)
+    oks = 'res = 0' in ssrc and f'for item in {ls.params[0]}: res = list_binop(operator.add, res, item, {ls.params[1]})' in ssrc and ssrc.rstrip().endswith('return res')
+    ctx.ob('C15.hooks', f'{ls.fq}:folds-with-binop', oks, 'the sum of a list is the left fold of the lifted addition from 0 over every item', ls.node, ls.module)
     ctx.ob('C15.hooks', f'{lb.fq}:wrap-extend-first', ok,
            'with two sequence operands the first thing list_binop does is to wrap-extend the shorter to the length of the longer '
            '(decision order: both sequences, a sequence, b sequence, scalars)', lb.node, lb.module)
@@ -433,6 +443,10 @@ def run(ctx):
 
 
 MUTANTS = [
+    dict(rule='C15.hooks', name='list_unop does not recurse into nested rows', file='sc3/base/utils.py',
+         old="            return t(list_unop(op, i, type(i)) for i in a)\n", new="            return t(op(i) for i in a)\n"),
+    dict(rule='C15.hooks', name='list_sum skips the first item', file='sc3/base/utils.py',
+         old="    res = 0\n    for item in lst:\n        res = list_binop(operator.add, res, item, t)", new="    res = 0\n    for item in lst[1:]:\n        res = list_binop(operator.add, res, item, t)"),
     dict(rule='C15.hooks', name='(fix reverted) Operand passes Operand arguments of n-ary operators unwrapped', file='sc3/base/operand.py',
          old="        args = [x.value if isinstance(x, Operand) else x for x in args]\n", new=""),
     dict(rule='C15.hooks', name='(fix reverted) list_narop hands list arguments to the kernel', file='sc3/base/utils.py',
